@@ -24,6 +24,7 @@ Non-interference argument in four structural legs:
  Rn arg roles     : a variable named like a parameter of the callee is handed to that parameter (no exchanged roles).
  R9 spectrum commit: spectrum maps are written only for served requests (shared with C14-R1/R2).
  R10 dispatch       : response dispatch on the blocking reason classes (shared with C19).
+ R11 own groups     : pruning the candidates of one request only touches that request's own synchronisation groups.
 """
 import ast
 
@@ -402,6 +403,41 @@ def r10_dispatch(ctx):
     _r(proxy(ctx, 'R10'))
 
 
+
+def r11_own_groups(ctx):
+    """R11: while the candidates of ONE request are pruned, only the synchronisation groups that request belongs to are touched: in
+    compute_path_dsjctn every removal from the candidate table made inside the per-request loop is indexed by a variable that
+    ranges over the groups selected with `<request>.request_id in <group>.disjunctions_req` - a route that is unusable for one
+    request must not disappear from an unrelated group"""
+    from .common import resolved
+    repo = ctx.repo
+    f = repo.func('gnpy.topology.request', 'compute_path_dsjctn')
+    defs = local_defs(f.node)
+    n = 0
+    for lp in [x for x in walk_no_nested(f.node) if isinstance(x, ast.For) and isinstance(x.target, ast.Name)]:
+        rq = lp.target.id
+        own = [nm for nm, dd in defs.items() for _, v in dd if isinstance(v, ast.ListComp) and
+               any(f'{rq}.request_id in' in ast.unparse(i) and 'disjunctions_req' in ast.unparse(i) for g in v.generators for i in g.ifs)
+               and enclosing(dd[0][0], ast.For) is lp]
+        if not own:
+            continue
+        for c in [x for x in ast.walk(lp) if isinstance(x, ast.Call) and isinstance(x.func, ast.Attribute) and x.func.attr in ('remove', 'pop', 'clear')
+                  and isinstance(x.func.value, ast.Subscript) and isinstance(x.func.value.value, ast.Name)]:
+            k = x_ = c.func.value.slice
+            n += 1
+            src = None
+            if isinstance(k, ast.Name):
+                for l2 in ast.walk(lp):
+                    if isinstance(l2, ast.For) and isinstance(l2.target, ast.Name) and l2.target.id == k.id and any(c is y for y in ast.walk(l2)):
+                        src = l2.iter
+            ok = isinstance(src, ast.Name) and src.id in own
+            ctx.check('R11.own-groups', f'{site(f, c)} {ast.unparse(c)[:50]}', ok, key(f, f'own-groups|{ast.unparse(c.func.value.value)}'),
+                      f'candidates are removed from the group `{ast.unparse(k)}`, which does not range over the groups of the request being '
+                      f'pruned ({own}): a route unusable for one request disappears from an unrelated group and another request of the batch '
+                      'gets a different route', ast.unparse(src) if src is not None else '')
+    ctx.need('R11.own-groups', 1)
+
+
 from ..memo import rule_for as _memo_rule
 
 RULES_MEMO = ('Rm.memo', _memo_rule('C16', 'requests would share a result'))
@@ -411,4 +447,4 @@ from ..presence import rule_for as _presence_rule
 
 RULES_PRESENCE = ('Rp.presence', _presence_rule('C16', 'a legal zero would be read as missing'))
 
-RULES = [('R5.memo', r5_memo), ('R1.isolation', r1_isolation), ('R2.no-leak', r2_no_leak), ('R3.redesign', r3_redesign), ('R4.shared', r4_shared), RULES_MEMO, RULES_PRESENCE, ('R6.carried', r6_carried), ('R7.defaults', r7_defaults), ('Re.for-each', re_foreach), ('Ra.alias-mutation', ra_alias), ('R8.same-request', r8_same_request), ('Rn.arg-roles', rn_arg_roles), ('R9.spectrum-commit', r9_spectrum_commit), ('R10.dispatch', r10_dispatch)]
+RULES = [('R5.memo', r5_memo), ('R1.isolation', r1_isolation), ('R2.no-leak', r2_no_leak), ('R3.redesign', r3_redesign), ('R4.shared', r4_shared), RULES_MEMO, RULES_PRESENCE, ('R6.carried', r6_carried), ('R7.defaults', r7_defaults), ('Re.for-each', re_foreach), ('Ra.alias-mutation', ra_alias), ('R8.same-request', r8_same_request), ('Rn.arg-roles', rn_arg_roles), ('R9.spectrum-commit', r9_spectrum_commit), ('R10.dispatch', r10_dispatch), ('R11.own-groups', r11_own_groups)]
